@@ -160,7 +160,7 @@ func (g *gen) term(pool []string, refs bool) string {
 
 func (g *gen) term0(pool []string, refs bool) string {
 	if refs && g.rng.Intn(6) == 0 {
-		names := []string{"a", "b", "x-1", "A", "MIT", "1.0"}
+		names := []string{"a", "b", "x-1", "A", "MIT", "1.0", "AND", "OR", "WITH", "a", "b"}
 		s := "LicenseRef-" + g.pick(names)
 		if g.rng.Intn(3) == 0 {
 			s = "DocumentRef-" + g.pick(names) + ":" + s
@@ -184,6 +184,14 @@ func (g *gen) term0(pool []string, refs bool) string {
 	case 2:
 		if !strings.HasSuffix(id, "-only") && !strings.HasSuffix(id, "-or-later") && inList(g.t.Active, id) {
 			s += "-or-later"
+		}
+	}
+	if g.rng.Intn(12) == 0 { // the suffixes (and a listed id ending in one) in another letter case
+		for _, sf := range []string{"-only", "-or-later"} {
+			if strings.HasSuffix(s, sf) {
+				s = strings.TrimSuffix(s, sf) + g.pick([]string{strings.ToUpper(sf), "-Only", "-Or-Later", "-onlY", "-or-lateR", sf + sf})
+				break
+			}
 		}
 	}
 	if g.rng.Intn(7) == 0 {
@@ -290,7 +298,7 @@ var junkTokens = []string{"(", ")", "AND", "OR", "WITH", "+", " +", ":", "and", 
 // mutate makes a (probably) invalid string out of a valid one.
 func (g *gen) mutate(s string) string {
 	toks := strings.Fields(s)
-	switch g.rng.Intn(6) {
+	switch g.rng.Intn(8) {
 	case 0: // truncate at a byte
 		if len(s) > 0 {
 			return s[:g.rng.Intn(len(s))]
@@ -315,8 +323,74 @@ func (g *gen) mutate(s string) string {
 		return s + g.pick([]string{" ", "", "  "}) + g.pick(junkTokens)
 	case 5: // prepend
 		return g.pick(junkTokens) + g.pick([]string{" ", ""}) + s
+	case 6, 7: // one ASCII character replaced by a Unicode look-alike, blank, digit or case partner
+		if t, ok := g.unicodeTwin(s); ok {
+			return t
+		}
 	}
 	return s + " " + g.pick(junkTokens)
+}
+
+// unicodeTwins: what a Unicode-aware helper (EqualFold, ToUpper, IsLetter, IsDigit, IsSpace, Fields, TrimSpace)
+// would take for the ASCII character, and the hand-written byte-level scanner does not.
+func unicodeTwins(c byte) []string {
+	var out []string
+	switch {
+	case c == 's' || c == 'S':
+		out = append(out, "\u017f", "\u1e9e")
+	case c == 'k' || c == 'K':
+		out = append(out, "\u212a")
+	case c == 'i':
+		out = append(out, "\u0131", "\u0130")
+	case c == 'I':
+		out = append(out, "\u0130", "\u0131")
+	case c == ' ':
+		out = append(out, "\u00a0", "\u2003", "\u3000", "\u0085", "\u2028", "\t\u00a0", "\u200b", "\ufeff")
+	case c == '-':
+		out = append(out, "\u2010", "\u2212", "\uff0d", "\u00ad", "-\u200b")
+	case c == '+':
+		out = append(out, "\uff0b")
+	case c == '(':
+		out = append(out, "\uff08")
+	case c == ')':
+		out = append(out, "\uff09")
+	case c == ':':
+		out = append(out, "\uff1a")
+	case c == '.':
+		out = append(out, "\uff0e", "\u3002")
+	}
+	switch {
+	case c >= '0' && c <= '9':
+		d := rune(c - '0')
+		out = append(out, string(rune(0xff10)+d), string(rune(0x0660)+d), string(rune(0x1d7ce)+d))
+	case c >= 'A' && c <= 'Z':
+		d := rune(c - 'A')
+		out = append(out, string(rune(0xff21)+d), string(rune(0x1d400)+d), string(rune(c))+"\u0301")
+	case c >= 'a' && c <= 'z':
+		d := rune(c - 'a')
+		out = append(out, string(rune(0xff41)+d), string(rune(0x1d41a)+d), string(rune(c))+"\u0301")
+	}
+	return out
+}
+
+func (g *gen) unicodeTwin(s string) (string, bool) {
+	if len(s) == 0 {
+		return s, false
+	}
+	for try := 0; try < 8; try++ {
+		i := g.rng.Intn(len(s))
+		tw := unicodeTwins(s[i])
+		if len(tw) == 0 {
+			continue
+		}
+		// the case partners are the interesting ones: prefer them when the character has one
+		t := tw[0]
+		if g.rng.Intn(3) > 0 {
+			t = tw[g.rng.Intn(len(tw))]
+		}
+		return s[:i] + t + s[i+1:], true
+	}
+	return s, false
 }
 
 // one random call
@@ -327,6 +401,10 @@ func (g *gen) call(flavor string, maxLeaves int) Event {
 	f := flavor
 	if f == "mixed" {
 		f = g.pick([]string{"sat", "sat", "sat", "invalid", "lists", "extract", "extract"})
+	}
+	if (f == "invalid" || f == "lists" || f == "case" || f == "extract" || f == "single") && g.rng.Intn(10) == 0 {
+		evs := g.unicodeEvents(1)
+		return evs[g.rng.Intn(len(evs))]
 	}
 	switch f {
 	case "large":
@@ -414,21 +492,53 @@ func (g *gen) caseMutate(s string) string {
 		if core == "" || core == "AND" || core == "OR" || core == "WITH" || strings.Contains(core, "Ref-") {
 			continue
 		}
+		suffix := ""
 		if !inListFold(g.t.Active, core) && !inListFold(g.t.Deprecated, core) && !inListFold(g.t.Exceptions, core) {
-			continue // carries an added suffix: outside C09's claim
+			// carries an added suffix: the suffix is matched exactly (outside C09's claim), the listed id in front of it is not
+			for _, sf := range []string{"-only", "-or-later"} {
+				if b := strings.TrimSuffix(core, sf); b != core && (inListFold(g.t.Active, b) || inListFold(g.t.Deprecated, b)) {
+					core, suffix = b, sf
+				}
+			}
+			if suffix == "" {
+				continue
+			}
 		}
 		var m string
-		switch g.rng.Intn(3) {
-		case 0:
+		switch g.rng.Intn(10) {
+		case 0, 1, 2:
 			m = strings.ToLower(core)
-		case 1:
+		case 3, 4, 5:
 			m = strings.ToUpper(core)
+		case 6: // a Unicode case partner (long s, Kelvin sign, dotless i ...) is NOT a case variant of an ASCII letter
+			var ok bool
+			if m, ok = g.foldPartner(core); !ok {
+				m = g.caseVariant(core)
+			}
 		default:
 			m = g.caseVariant(core)
 		}
-		words[i] = strings.Replace(w, core, m, 1)
+		words[i] = strings.Replace(w, core+suffix, m+suffix, 1)
 	}
 	return strings.Join(words, " ")
+}
+
+// foldPartner replaces one s / k / i (either case) by the non-ASCII rune that Unicode case mapping or simple
+// folding identifies with it.
+func (g *gen) foldPartner(s string) (string, bool) {
+	var at []int
+	for i := 0; i < len(s); i++ {
+		switch s[i] {
+		case 's', 'S', 'k', 'K', 'i', 'I':
+			at = append(at, i)
+		}
+	}
+	if len(at) == 0 {
+		return s, false
+	}
+	i := at[g.rng.Intn(len(at))]
+	tw := unicodeTwins(s[i])
+	return s[:i] + tw[g.rng.Intn(2)%len(tw)] + s[i+1:], true
 }
 
 func inListFold(l []string, s string) bool {
@@ -870,6 +980,91 @@ func (g *gen) wsVariant(s string) string {
 }
 
 // sessionEvents: n sessions of about a dozen calls each
+// unicodeEvents: arguments that contain well-formed non-ASCII text exactly where a Unicode-aware rewrite of the
+// byte-level scanner or of the table lookup would start to behave differently: the two case-fold partners of
+// ASCII letters (U+017F for s, U+212A for k) inside listed ids, Unicode letters / digits inside reference
+// names, Unicode blanks as separators or padding, full-width operators.  The specification maps every such
+// byte to the foreign symbol, so all of these are invalid; what is compared is what the real functions say.
+func (g *gen) unicodeEvents(k int) []Event {
+	var evs []Event
+	three := func(text, partner string) {
+		evs = append(evs, eventOf(obsExtract(text), text, nil))
+		l := []string{partner, text}
+		evs = append(evs, eventOf(obsValidate(l), "", l))
+		evs = append(evs, eventOf(obsSatisfies(partner, l), partner, l))
+		evs = append(evs, eventOf(obsSatisfies(text, []string{partner}), text, []string{partner}))
+	}
+	var foldable, foldableExc []string
+	for _, id := range append(append([]string{}, g.t.Active...), g.t.Deprecated...) {
+		if strings.ContainsAny(id, "sSkK") && !strings.HasSuffix(id, "+") {
+			foldable = append(foldable, id)
+		}
+	}
+	for _, id := range g.t.Exceptions {
+		if strings.ContainsAny(id, "sSkK") {
+			foldableExc = append(foldableExc, id)
+		}
+	}
+	fold := func(id string) string {
+		var at []int
+		for i := 0; i < len(id); i++ {
+			if strings.IndexByte("sSkK", id[i]) >= 0 {
+				at = append(at, i)
+			}
+		}
+		i := at[g.rng.Intn(len(at))]
+		if id[i] == 's' || id[i] == 'S' {
+			return id[:i] + "\u017f" + id[i+1:]
+		}
+		return id[:i] + "\u212a" + id[i+1:]
+	}
+	for j := 0; j < k; j++ {
+		id := g.pick(foldable)
+		three(fold(id), id)
+		if j%2 == 0 { // first character
+			for _, x := range foldable {
+				if strings.IndexByte("sSkK", x[0]) >= 0 && g.rng.Intn(3) == 0 {
+					three(fold(x[:1])+x[1:], x)
+					break
+				}
+			}
+		}
+		if len(foldableExc) > 0 {
+			exc := g.pick(foldableExc)
+			lic := g.pick(g.t.Active)
+			three(lic+" WITH "+fold(exc), lic+" WITH "+exc)
+		}
+		// reference names
+		name := g.pick([]string{"caf\u00e9", "\u0434\u043e\u043a", "x\uff11", "a\u0663", "\uff21bc", "cu\u017ftom", "\u212a", "a\u0301", "n\u00b5", "\U0001d40c"})
+		ref := "LicenseRef-" + name
+		if g.rng.Intn(2) == 0 {
+			ref = "DocumentRef-" + name + ":LicenseRef-a"
+		}
+		three(ref, "LicenseRef-a")
+		// blanks
+		a, b := g.pick(g.t.Active), g.pick(g.t.Active)
+		blank := g.pick([]string{"\u00a0", "\u2003", "\u3000", "\u0085", "\u2028", "\u1680", "\u202f", "\ufeff", "\u200b"})
+		switch g.rng.Intn(4) {
+		case 0:
+			three(a+blank+"AND "+b, a+" AND "+b)
+		case 1:
+			three(a+" OR"+blank+b, a+" OR "+b)
+		case 2:
+			three(a+blank, a)
+		default:
+			three(blank+a, a)
+		}
+		// operators
+		op := g.pick([]string{"\uff21ND", "A\u039dD", "\u039fR", "O\u0280", "W\u0130TH", "W\u0131TH", "\uff0b"})
+		if op == "\uff0b" {
+			three(a+op, a+"+")
+		} else {
+			three(a+" "+op+" "+b, a+" AND "+b)
+		}
+	}
+	return evs
+}
+
 func (g *gen) sessionEvents(n int, reverse bool) []Event {
 	var evs []Event
 	for i := 0; i < n; i++ {
@@ -888,6 +1083,9 @@ func (g *gen) sessionEvents(n int, reverse bool) []Event {
 					}
 				}
 			}
+		}
+		if i == 0 {
+			evs = append(evs, g.unicodeEvents(4)...)
 		}
 		exc := g.pick(g.t.Exceptions)
 		other := g.pick(g.t.Active)
